@@ -389,17 +389,34 @@ def check_containers(case):
     from dznpy.text_gen import TextBlock
     body = list(case['lines'])
     ids = list(case['ns'])
-    ns = Namespace(NamespaceIds(ids), TextBlock(list(body)) if case['ctor_contents'] else None)
+    kind = case.get('contents_kind', 'plain') if body else 'plain'
+
+    def mk_contents():
+        # contents whose string form is more than its raw lines: a comment block, a block with a
+        # header; "unchanged contents" = the lines the contents render on their own
+        from dznpy.cpp_gen import Comment
+        if kind == 'comment':
+            return Comment(list(body))
+        if kind == 'headed':
+            return TextBlock(list(body), header=['// contents header', '#define IN_HEADER 1'])
+        if kind == 'nested':
+            return TextBlock([TextBlock(list(body)), Comment('tail comment'), 'int tail_;'])
+        return TextBlock(list(body))
+    alone = str(mk_contents())
+    inner = alone[:-1].split('\n') if alone else []
+    if kind == 'plain':
+        expect(inner == body, f'plain contents render {inner!r}', 'contents-self')
+    ns = Namespace(NamespaceIds(ids), mk_contents() if case['ctor_contents'] else None)
     if not case['ctor_contents']:
-        ns.contents = TextBlock(list(body))
+        ns.contents = mk_contents()
     out = str(ns)
     lines = out[:-1].split('\n') if out else []
     label = (' ' + '::'.join(ids)) if ids else ''
     if body:
         expect(lines[0] == f'namespace{label} {{', f'namespace head {lines[:1]!r}', 'ns-head')
         expect(lines[-1] == f'}} // namespace{label}', f'namespace tail {lines[-1:]!r}', 'ns-tail')
-        expect(lines[1:-1] == body, f'namespace contents changed: {lines[1:-1]!r} vs {body!r}',
-               'ns-contents')
+        expect(lines[1:-1] == inner, f'namespace contents ({kind}) changed: {lines[1:-1]!r} vs '
+               f'{inner!r}', 'ns-contents')
     else:
         expect(lines == [f'namespace{label} {{}}'], f'empty namespace: {lines!r}', 'ns-empty')
     # containers constructed without contents and filled in place are independent of each other
@@ -412,13 +429,18 @@ def check_containers(case):
     expect(str(s2) == 'struct S2\n{\n};\n', f'struct without contents renders {str(s2)!r} after '
            f'another one was filled in place', 'struct-shared-default')
     for cls, kw in ((Struct, 'struct'), (Class, 'class')):
-        s = cls(case['name'], TextBlock(list(body)))
+        if case['ctor_contents']:
+            s = cls(case['name'], mk_contents())
+        else:
+            s = cls(case['name'])
+            s.contents = mk_contents()
         out = str(s)
         lines = out[:-1].split('\n')
         expect(lines[0] == f'{kw} {case["name"]}' and lines[1] == '{' and lines[-1] == '};',
                f'{kw} frame: {lines!r}', 'struct-frame')
-        expect(lines[2:-1] == body, f'{kw} contents changed: {lines[2:-1]!r} vs {body!r}',
-               'struct-contents')
+        expect(lines[2:-1] == inner, f'{kw} contents ({kind}) changed: {lines[2:-1]!r} vs '
+               f'{inner!r}', 'struct-contents')
+        expect(str(s) == out, f'{kw} renders differently the second time', 'struct-rerender')
     for spec in AccessSpecifier:
         sec = str(AccessSpecifiedSection(spec, TextBlock(list(body))))
         lines = sec[:-1].split('\n') if sec else []
@@ -723,10 +745,12 @@ def run(ctx):
     ctx.clause('containers', st.fixed_dictionaries({
         'lines': block_lines, 'ns': st.lists(st.sampled_from(IDS), max_size=3),
         'ctor_contents': st.booleans(), 'name': st.sampled_from(['MyStruct', 'S', 'x_1']),
+        'contents_kind': st.sampled_from(['plain', 'plain', 'comment', 'headed', 'nested']),
         'includes': st.lists(st.sampled_from(['string', 'dzn/pump.hh', 'A/B.h', 'x.hh']),
                              max_size=3),
         'mv_type': typedesc, 'mv_name': st.sampled_from(['m_x', 'myPort', '_v'])}),
         check_containers, max(1, n // 3), nontrivial=lambda c: len(c['lines']) >= 2,
-        labels=lambda c: ['containers', 'ns-ids=%d' % len(c['ns'])])
+        labels=lambda c: ['containers', 'ns-ids=%d' % len(c['ns']),
+                          'contents-' + (c['contents_kind'] if c['lines'] else 'plain')])
     if ctx.shard is None or ctx.shard[0] == 0:
         run_compile_clause(ctx, 16 if ctx.quick else 200, 12 if ctx.quick else 50)
